@@ -211,8 +211,20 @@ func (fr *frame) binop(op token.Token, t types.Type, x, y Value, pos token.Pos) 
 				}
 			}
 		}
+		if r, ok := fpConvCmpConst(op, x, y); ok {
+			return lowerBool(r)
+		}
+		if r, ok := w.fpConvCmpConv(op, x, y); ok {
+			return r
+		}
 		a, b := liftFloat(x), liftFloat(y)
 		rm := &Term{op: "const", sort: SFP, raw: "RNE", size: 1}
+		if w.absFloatArith {
+			switch op {
+			case token.ADD, token.SUB, token.MUL, token.QUO:
+				return w.opaqueFloatFn("float64 "+op.String(), a, b)
+			}
+		}
 		switch op {
 		case token.ADD:
 			return tFP("fp.add", SFP, rm, a, b)
@@ -289,6 +301,147 @@ func (fr *frame) binop(op token.Token, t types.Type, x, y Value, pos token.Pos) 
 		}
 	}
 	panic(engineError{fmt.Sprintf("binop %v on %v (%T, %T)", op, t, x, y)})
+}
+
+// fpConvCmpConst rewrites a comparison between float64(i) (i an integer
+// term, round-to-nearest-even conversion) and a float64 constant c into an
+// integer comparison. The conversion is monotone non-decreasing, so
+// {i : float64(i) <= c} and {i : float64(i) < c} are down-sets whose largest
+// elements are found by bisection with the same rounding (big.Float, RNE).
+func fpConvCmpConst(op token.Token, x, y Value) (*Term, bool) {
+	conv := func(v Value) (*Term, bool) {
+		t, ok := v.(*Term)
+		if ok && t.op == "(_ to_fp 11 53)" && len(t.args) == 2 && t.args[1].op == "to_real" {
+			return t.args[1].args[0], true
+		}
+		return nil, false
+	}
+	i, okx := conv(x)
+	c, okc := y.(float64)
+	if !okx || !okc {
+		i2, oky := conv(y)
+		c2, okc2 := x.(float64)
+		if !oky || !okc2 {
+			return nil, false
+		}
+		// c2 op i2  ==  i2 op' c2
+		i, c = i2, c2
+		switch op {
+		case token.LSS:
+			op = token.GTR
+		case token.LEQ:
+			op = token.GEQ
+		case token.GTR:
+			op = token.LSS
+		case token.GEQ:
+			op = token.LEQ
+		}
+	}
+	switch op {
+	case token.EQL, token.NEQ, token.LSS, token.LEQ, token.GTR, token.GEQ:
+	default:
+		return nil, false
+	}
+	if math.IsNaN(c) {
+		return boolConst(op == token.NEQ), true
+	}
+	lo := new(big.Int).Neg(pow2(63))
+	hi := new(big.Int).Sub(pow2(64), big1)
+	if i.lo != nil && i.lo.Cmp(lo) > 0 {
+		lo = i.lo
+	}
+	if i.hi != nil && i.hi.Cmp(hi) < 0 {
+		hi = i.hi
+	}
+	fl := func(v *big.Int) float64 {
+		f, _ := new(big.Float).SetInt(v).Float64()
+		return f
+	}
+	// largest v in [lo-1, hi] with pred(v) (pred is a down-set; lo-1 means none)
+	maxWith := func(pred func(float64) bool) *big.Int {
+		l := new(big.Int).Sub(lo, big1) // invariant: pred holds at l (or l = lo-1)
+		h := new(big.Int).Add(hi, big1) // invariant: pred fails at h (or h = hi+1)
+		for new(big.Int).Sub(h, l).Cmp(big1) > 0 {
+			m := new(big.Int).Add(l, h)
+			m.Rsh(m, 1) // floor((l+h)/2) also for negatives (Rsh on big.Int is arithmetic)
+			if pred(fl(m)) {
+				l = m
+			} else {
+				h = m
+			}
+		}
+		return l
+	}
+	kle := intConstBig(maxWith(func(f float64) bool { return f <= c }))
+	klt := intConstBig(maxWith(func(f float64) bool { return f < c }))
+	switch op {
+	case token.LEQ:
+		return tLe(i, kle), true
+	case token.LSS:
+		return tLe(i, klt), true
+	case token.GEQ:
+		return tGt(i, klt), true
+	case token.GTR:
+		return tGt(i, kle), true
+	case token.EQL:
+		return tAnd(tGt(i, klt), tLe(i, kle)), true
+	case token.NEQ:
+		return tNot(tAnd(tGt(i, klt), tLe(i, kle))), true
+	}
+	return nil, false
+}
+
+// fpConvCmpConv: a comparison between float64(a) and float64(b) for integer
+// terms beyond 2^53. Exact reasoning about two roundings is out of reach of
+// the back ends; the result is a fresh Bool r constrained by what monotone
+// rounding with an error below 2048 (half an ulp under 2^64) implies, e.g.
+// for <:  r => a < b,  b - a > 2048 => r. This over-approximates the
+// comparison; counterexamples are confirmed natively.
+func (w *Worker) fpConvCmpConv(op token.Token, x, y Value) (Value, bool) {
+	conv := func(v Value) (*Term, bool) {
+		t, ok := v.(*Term)
+		if ok && t.op == "(_ to_fp 11 53)" && len(t.args) == 2 && t.args[1].op == "to_real" {
+			return t.args[1].args[0], true
+		}
+		return nil, false
+	}
+	a, ok1 := conv(x)
+	b, ok2 := conv(y)
+	if !ok1 || !ok2 {
+		return nil, false
+	}
+	switch op {
+	case token.GTR:
+		a, b, op = b, a, token.LSS
+	case token.GEQ:
+		a, b, op = b, a, token.LEQ
+	}
+	neg := false
+	if op == token.NEQ {
+		op, neg = token.EQL, true
+	}
+	p := w.path
+	r := p.freshBool()
+	k := intConst(2048)
+	implies := func(c, d *Term) *Term { return tOr(tNot(c), d) }
+	switch op {
+	case token.LSS:
+		p.assertTerm(implies(r, tLt(a, b)))
+		p.assertTerm(implies(tGt(tSub(b, a), k), r))
+	case token.LEQ:
+		p.assertTerm(implies(tLe(a, b), r))
+		p.assertTerm(implies(r, tLe(tSub(a, b), k)))
+	case token.EQL:
+		p.assertTerm(implies(tEq(a, b), r))
+		p.assertTerm(implies(r, tAnd(tLe(tSub(a, b), k), tLe(tSub(b, a), k))))
+	default:
+		return nil, false
+	}
+	w.stub("comparison of float64(a) with float64(b) beyond 2^53: constrained by monotone rounding only (over-approximation)")
+	if neg {
+		return lowerBool(tNot(r)), true
+	}
+	return lowerBool(r), true
 }
 
 // fpIntOrigin recognises a float that is the exact conversion of an integer
@@ -591,6 +744,24 @@ func convFloatToInt(f float64, k intKind) Value {
 // symFloatToInt: truncation toward zero for values representable in int64;
 // outside that range amd64 yields MinInt64.
 func (w *Worker) symFloatToInt(f *Term, k intKind) Value {
+	if i, ok := fpIntOrigin(f); ok {
+		// exact conversion of an integer of magnitude <= 2^53: the round trip is the identity
+		return lowerInt(tWrap(i, k.bits, k.signed), k)
+	}
+	if f.op == "(_ to_fp 11 53)" && len(f.args) == 2 && f.args[1].op == "to_real" {
+		// float64(i) for an integer beyond 2^53: in range iff below 2^63 after rounding; the
+		// value is i rounded to 53 significant bits: |result - i| <= 1024 (half an ulp below 2^64)
+		i := f.args[1].args[0]
+		lt, _ := fpConvCmpConst(token.LSS, f, 9.223372036854775808e18)
+		ge, _ := fpConvCmpConst(token.GEQ, f, -9.223372036854775808e18)
+		if !w.path.Branch(tAnd(lt, ge)) {
+			return wrapConc(math.MinInt64, k)
+		}
+		w.stub("int64(float64(i)) for |i| > 2^53: any value within 1024 of i (over-approximation of the rounding)")
+		r := w.path.freshInt(64, true)
+		w.path.assertTerm(tAnd(tLe(tSub(r, i), intConst(1024)), tLe(tSub(i, r), intConst(1024))))
+		return lowerInt(tWrap(r, k.bits, k.signed), k)
+	}
 	rtz := &Term{op: "const", sort: SFP, raw: "RTZ", size: 1}
 	inRange := tAnd(tFP("fp.lt", SBool, f, fpConstLit(9.223372036854775808e18)), tFP("fp.geq", SBool, f, fpConstLit(-9.223372036854775808e18)))
 	inRange = tAnd(inRange, tNot(tFP("fp.isNaN", SBool, f)))
